@@ -482,6 +482,11 @@ func (cs *clientStream) doHttpCall(transport http.RoundTripper, req *http.Reques
 			}
 			return
 		}
+		if sz > maxMessageSize {
+			// don't allocate on the strength of an unverified size preface
+			rErr = status.Errorf(codes.ResourceExhausted, "bad size preface: indicated size is too large: %d", sz)
+			return
+		}
 		msg := make([]byte, sz)
 		_, rErr = io.ReadAtLeast(reply.Body, msg, int(sz))
 		if rErr != nil {
